@@ -358,6 +358,10 @@ func genHostileBoundArith(name string, k int) string {
 		"sh := 200\n\tfor i := 0; i < 1<<sh; i++ {\n\t\ts += i\n\t\tif i > 3 {\n\t\t\tbreak\n\t\t}\n\t}",
 		"z := 0\n\td := 4*z + 0\n\tfor i := 100; i > 7/d; i -= 3 {\n\t\ts += i\n\t}",
 		"z := 0\n\tfor i := 0; i <= 9/(2/(z+3)); i++ {\n\t\ts += i\n\t}",
+		// shift counts that are constants held in locals: a value of 2^(2^31) or 2^(2^62) bits
+		"sh := uint(1 << 31)\n\tlim := 1 << sh\n\tfor i := 0; i < lim; i++ {\n\t\ts += i\n\t}",
+		"sh := uint(1 << 62)\n\tlim := 3 << sh\n\tfor i := 0; i < lim; i++ {\n\t\ts += i\n\t}",
+		"sh := uint(1 << 40)\n\tfor i := 1 << sh; i < 10; i++ {\n\t\ts += i\n\t}",
 	}
 	var b strings.Builder
 	for v := 0; v < k && v < len(variants); v++ {
@@ -397,7 +401,7 @@ func fpFamilies() []fpFamily {
 		{name: "dependent-loop-chain", quick: []int{50, 100, 200, 400}, thor: []int{25, 50, 100, 200, 400, 800}, gen: genLoopChain},
 		{name: "dependent-start-nest", quick: []int{8, 16, 32, 64}, thor: []int{8, 16, 32, 64, 100}, gen: genDependentStartNest},
 		{name: "headerless-dependent-nest", quick: []int{16, 24, 32, 40}, thor: []int{16, 24, 32, 40, 48, 60}, gen: genHeaderlessDependentNest},
-		{name: "hostile-bound-arithmetic", quick: []int{2, 4, 8}, thor: []int{2, 4, 8}, gen: genHostileBoundArith},
+		{name: "hostile-bound-arithmetic", quick: []int{3, 7, 11}, thor: []int{3, 7, 11}, gen: genHostileBoundArith},
 		{name: "deep-parens", quick: []int{250, 500, 1000, 2000}, thor: []int{250, 500, 1000, 2000, 4000}, gen: genDeepParens},
 		{name: "nested-closures", quick: []int{12, 25, 50}, thor: []int{12, 25, 50, 100}, gen: genNestedClosures},
 		// sizeByParam: the 40 uses of the innermost variable dominate the SSA size, so the ladder
